@@ -31,7 +31,11 @@ RULE = ("generated call histories (1-4 calls with differing keyword arguments on
         "two and extents 2 / 3 next to large ones, shape-preserving histories, results overwritten by the caller, repeated and "
         "unmodified arguments, copies / pickles of used objects, per-call whitening data in several dtypes / layouts / scales with an "
         "independent radial average, stacks (batch_dimension=0), reconstruction filters, astigmatic and tilt-stack CTF, reused / "
-        "nested / full-spectrum compositions, evaluation order across two interpreters, float64 backend. distinct = distinct "
+        "nested / full-spectrum compositions, evaluation order across two interpreters, float64 backend; second part (seeded cases deep-*): radial "
+        "bins / n_bins / order=None masks of the whitening filter, step and continuous wedges with captured planes (angles incl. 0, +-90, negative; all axis "
+        "pairs; weights; cut-offs None / 0.4 / 0.5 / 0.7), tilt-series Wedge for every weight_type incl. unknown ones with untilted and tilted images, CTF single / "
+        "mismatching angles / tilt stacks, Preprocessor mask constructors, metadata returned by all six filter classes, reconstruction filters of the per-tilt "
+        "wedge (names in any letter case, unknown names). distinct = distinct "
         "(filter, shape, arguments) tuples; shapes with all extents <= 2 and repeated argument tuples are not counted")
 ASSUMPTIONS = [
     "exp, sqrt, tan, sin and scipy's ndimage.mean / map_coordinates are exercised, not modelled: the radial averages and the wedge "
@@ -40,8 +44,16 @@ ASSUMPTIONS = [
     "extent-1 axes are excluded (fftfreqn divides by int(1*0.5) = 0 there); filters are generated for extents >= 2",
     "LinearWhiteningFilter only ever produces the half-spectrum shape (it has no return_real_fourier switch); its symmetry is checked on "
     "the leading axes and on the self-conjugate planes of the last axis",
-    "per-tilt step wedge, tilt-stack Wedge and CTF values are not modelled (interpolation / sin numerics): shape, half-of-full, range and "
-    "statelessness clauses are evaluated on the real arrays only; no symmetry is claimed for them",
+    "per-tilt step wedge: the rotated planes (rigid_transform interpolation) are not modelled - they are captured at centered() and enter the "
+    "model as input; crop / clip / tiling and the tail of __call__ are modelled and compared bit-exact; symmetry is claimed only on the axes "
+    "other than opening / tilt axis. Tilt-stack Wedge: planes are modelled given the rotation matrix euler_to_rotationmatrix returned "
+    "(weight_angle bit-exact; relion / grigorieff, which use exp / power, at 2e-6 on the float32 output). CTF: layout (ctfPlan) exact; values of the "
+    "non-astigmatic CTF = numpy's transfer-function arithmetic (sin, arctan) applied to the model's frequency grid, compared at 1e-6; astigmatic CTF and "
+    "defocus gradient: shape, half-of-full, range and statelessness on the real arrays only",
+    "reconstruction filters: ram-lak and ramp are modelled exactly; shepp-logan / cosine / hamming are numpy's profile (sinc, cos) applied to the model's "
+    "frequency grid (1e-12); their effect on the wedge passes through the unmodelled rotation",
+    "negation laws of IEEE arithmetic up to the sign of zero (structure LinLaws: r*(-k) ~ -(r*k), (-a)+(-b) ~ -(a+b), (x/n)^2 = (y/n)^2 for x ~ -y) and "
+    "0*0 = 0, 1*1 = 1, 0 < 1 (TailLaws) are assumed of Float, proved for the exact Rat instance",
     "LinearWhiteningFilter: batch_dimension is exercised for axis 0 only (scipy.ndimage.mean cannot broadcast the labels otherwise) and "
     "shapes are not passed as ndarray (the code tests `if shape`); the independent radial average skips inputs with a voxel within 1e-9 "
     "of a bin edge and compares at 1e-9 (complex128 input) / 1e-5 (complex64 input: two float32 roundings per sample before the mean)",
@@ -909,6 +921,622 @@ def check_compose_loop_model(ctx, rng):
               + (":with-replace" if any(k == "replace" for k, _ in parts) else ""))
 
 
+# ----------------------------------------------------------------------------- second part: decision logic brought into the model later
+# radial bins of the whitening filter (+ order=None mask), per-tilt (step) wedge bookkeeping and the common tail of
+# WedgeReconstructed.__call__, the tilt stack of Wedge, the layout logic of CTF, the legacy Preprocessor mask constructors.
+# Every case is generated from one integer seed (replayable: {"kind": "deep-*", "seed": k}).
+def arr_in(a):
+    a = np.asarray(a, dtype=np.float64)
+    return {"shape": [int(x) for x in a.shape], "data": [fr(x) for x in a.ravel()]}
+
+
+def arr_eq(m, out, tol=0.0):
+    if isinstance(m, str):
+        return m
+    md = unfl(m["data"], m["shape"])
+    out = np.asarray(out, dtype=np.float64)
+    return {"shape": m["shape"], "equal": bool(md.shape == out.shape and np.all(np.abs(md - out) <= tol))}
+
+
+def deep_bins(ctx, seed):
+    from tme.preprocessing.frequency_filters import LinearWhiteningFilter
+    g = np.random.default_rng(seed)
+    shape = rand_shape(g, lo=2, hi=12)
+    nb = [None, None, int(g.integers(1, 9)), 1000, 1][int(g.integers(0, 5))]
+    data = g.normal(size=shape) * 10.0 ** int(g.integers(-3, 4)) + g.uniform(0, 2)
+    rf = np.fft.rfftn(data)
+    hs = tuple(rf.shape)
+    inp = {"kind": "deep-bins", "seed": seed, "shape": shape, "n_bins": nb}
+    lw = LinearWhiteningFilter()
+    bins, spec_ = lw._compute_spectrum(rf, nb, None)
+    bins = np.asarray(bins)
+    m = ctx.driver.call("c12.bins", shape=list(hs), n_bins=nb)
+    ctx.agree("LinearWhiteningFilter._compute_spectrum: number of bins and bin label of every position (nBins, binsArr)", inp,
+              {"n_bins": int(spec_.size), "bins": [int(x) for x in bins.ravel()]}, {"n_bins": m["n_bins"], "bins": m["bins"]})
+    lead = tuple(range(bins.ndim - 1))
+    vox = np.fft.ifftshift(bins, axes=lead)       # label of every voxel of data_rfft itself (DC first)
+    ctx.agree("bin label of the voxels of data_rfft (fftshift position = srcIdx; binOfVoxel)", inp, [int(x) for x in vox.ravel()], m["voxel_bins"])
+    max_bins = max(max(hs[:-1]) // 2 + 1, hs[-1])
+    ctx.spec("number of radial bins = min(requested, max_bins), at least one", inp,
+             spec_.size == (max_bins if nb is None else min(nb, max_bins)) and spec_.size >= 1, {"n_bins": int(spec_.size)},
+             key="LinearWhiteningFilter:n_bins")
+    ctx.spec("bin labels are non-negative integers, the zero frequency has label 0", inp,
+             bins.dtype.kind == "i" and int(bins.min()) >= 0 and int(vox.flat[0]) == 0, key="LinearWhiteningFilter:bins")
+    bad = asym_positions(ctx, vox.astype(np.float64), 0.0, axes=lead)
+    ctx.spec("bins symmetric under frequency negation (leading axes)", inp, len(bad) == 0, {"asymmetric": bad[:5].tolist()},
+             key="LinearWhiteningFilter:bins-symmetry")
+    counted = sum(int((bins == b).sum()) for b in range(spec_.size)) + int((bins >= spec_.size).sum())
+    ctx.spec("every voxel is counted in exactly one radial average, or in none beyond the last bin", inp, counted == bins.size,
+             key="LinearWhiteningFilter:bins-partition")
+    ctx.count("deep:bins:" + ("default" if nb is None else "requested") + ":" + parity(hs)[-1])
+    if nontrivial(shape):
+        ctx.distinct(("deep-bins", shape, nb))
+    if np.all(np.isfinite(spec_)):
+        out = np.asarray(lw(data_rfft=rf, n_bins=nb, order=None)["data"])
+        mm = ctx.driver.call("c12.whitennone", shape=list(hs), spectrum=[fr(x) for x in spec_], n_bins=int(spec_.size))
+        ctx.agree("LinearWhiteningFilter order=None mask given the radial averages (whitenNone)", inp, {"shape": list(out.shape), "equal": True},
+                  arr_eq(mm, out))
+        ctx.spec("order=None mask: half-spectrum shape of the data; every value is one of the radial averages or 0", inp,
+                 out.shape == hs and bool(np.all(np.isin(out, np.concatenate([np.asarray(spec_, dtype=out.dtype), [0.0]])))),
+                 key="LinearWhiteningFilter:order-none")
+        bad = asym_positions(ctx, out, 0.0, axes=lead)
+        ctx.spec("symmetric under frequency negation", inp, len(bad) == 0, {"asymmetric": bad[:5].tolist()}, key="LinearWhiteningFilter:symmetry")
+    if g.random() < 0.3:
+        # a stack (batch_dimension=0): the bins are those of one member
+        k = int(g.integers(2, 4))
+        stack = np.stack([rf] + [np.fft.rfftn(g.normal(size=shape)) for _ in range(k - 1)])
+        bins_b, spec_b = lw._compute_spectrum(stack, nb, 0)
+        mb = ctx.driver.call("c12.binshape", shape=[int(x) for x in stack.shape], batch=0)
+        ctx.agree("bins of a stack: shape without the batch axis, labels of one member (binShape)", {**inp, "stack": k},
+                  {"shape": list(np.asarray(bins_b).shape), "same": bool(np.array_equal(np.asarray(bins_b), bins)), "n_bins": int(spec_b.size)},
+                  {"shape": mb["shape"], "same": True, "n_bins": m["n_bins"]})
+        ctx.count("deep:bins:stack")
+    return inp
+
+
+SPECIAL_ANGLES = [-90.0, -60.0, -45.0, -30.0, 0.0, 30.0, 45.0, 60.0, 90.0]
+
+
+@contextlib.contextmanager
+def capture_step(cap):
+    """record, for one WedgeReconstructed call: the plane handed to `centered` (before the crop), the value the
+    static wedge constructor returned (copied: the tail multiplies in place) and the keyword arguments it saw"""
+    from tme.preprocessing import tilt_series as ts
+    from tme.preprocessing.tilt_series import WedgeReconstructed
+    orig_centered = ts.centered
+    saved = {n: inspect.getattr_static(WedgeReconstructed, n) for n in ("step_wedge", "continuous_wedge")}
+
+    def centered_rec(a, new_shape):
+        cap["plane"] = np.array(a, copy=True)
+        cap["crop_to"] = tuple(int(x) for x in new_shape)
+        return orig_centered(a, new_shape)
+
+    def wrap(name, f):
+        def w(*a, **k):
+            r = f(*a, **k)
+            cap["func"] = name
+            cap["kwargs"] = dict(k)
+            cap["volume"] = np.array(r, copy=True)
+            return r
+        return staticmethod(w)
+    ts.centered = centered_rec
+    for n, raw in saved.items():
+        setattr(WedgeReconstructed, n, wrap(n, raw.__func__))
+    try:
+        yield
+    finally:
+        ts.centered = orig_centered
+        for n, raw in saved.items():
+            setattr(WedgeReconstructed, n, raw)
+
+
+def deep_wedge(ctx, seed):
+    from tme.preprocessing.tilt_series import WedgeReconstructed
+    g = np.random.default_rng(seed)
+    shape = rand_shape(g, lo=3, hi=10)
+    nd = len(shape)
+    oa, ta = (int(x) for x in g.permutation(nd)[:2])
+    continuous = bool(g.random() < 0.3)
+    if continuous:
+        angles = (float(g.choice([0.0, 30.0, 45.0, 60.0, 90.0])), float(g.integers(0, 91))) if g.random() < 0.5 else \
+            (float(g.integers(0, 91)), float(g.integers(0, 91)))
+        weights, ww = None, False
+    else:
+        n = int(g.integers(1, 7))
+        if g.random() < 0.35:
+            angles = tuple(float(x) for x in np.sort(g.choice(SPECIAL_ANGLES, size=n, replace=False)))
+        else:
+            angles = tuple(float(x) for x in np.sort(g.uniform(-75, 75, size=n)).round(1))
+        weights = None if g.random() < 0.5 else tuple(float(x) for x in g.uniform(0.3, 2.5, size=n).round(2))
+        ww = bool(g.random() < 0.5)
+    fc = [0.5, None, 0.4, 0.7][int(g.integers(0, 4))]
+    rrf = bool(g.random() < 0.5)
+    inp = {"kind": "deep-wedge", "seed": seed, "shape": shape, "angles": angles, "opening_axis": oa, "tilt_axis": ta, "weights": weights,
+           "weight_wedge": ww, "frequency_cutoff": fc, "return_real_fourier": rrf, "continuous": continuous}
+    ctor = dict(angles=angles, opening_axis=oa, tilt_axis=ta, weights=weights, weight_wedge=ww, frequency_cutoff=fc,
+                create_continuous_wedge=continuous)
+    cap = {}
+    with capture_step(cap):
+        out = np.asarray(WedgeReconstructed(**ctor)(shape=shape, return_real_fourier=rrf)["data"])
+    vol = cap["volume"]
+    kind = "continuous" if continuous else "step"
+    ctx.agree("WedgeReconstructed wedge kind", inp, cap["func"], "continuous_wedge" if continuous else "step_wedge")
+    if continuous:
+        m = ctx.driver.call("c12.contvol", shape=list(shape), start=fr(np.tan(np.radians(90 - angles[0]))),
+                            stop=fr(np.tan(np.radians(-1 * (90 - angles[1])))), big=fr(np.tan(np.radians(90)) + 1), opening=oa, tilt=ta)
+        ctx.agree("continuous_wedge volume before the tail (contVolume)", inp, {"shape": list(vol.shape), "equal": True}, arr_eq(m, vol))
+    else:
+        w_eff = cap["kwargs"].get("weights")
+        wmax = 1.0 if w_eff is None else float(np.max(w_eff))
+        use_cos = ctx.driver.call("c12.stepweights", weight_wedge=ww, wedge_weights_given=False)
+        expect = np.cos(np.radians(np.asarray(angles))) if use_cos else weights
+        ctx.agree("weights seen by step_wedge: cosines of the tilt angles whenever weight_wedge, the caller's otherwise (stepWeightsFromCos)", inp,
+                  None if w_eff is None else [float(x) for x in np.asarray(w_eff, dtype=np.float64)],
+                  None if expect is None else [float(x) for x in np.asarray(expect, dtype=np.float64)])
+        m = ctx.driver.call("c12.stepvol", shape=list(shape), opening=oa, tilt=ta, plane=arr_in(cap["plane"]), wmax=fr(wmax))
+        ctx.agree("step_wedge: shape of the rotated plane, crop target (planeShape)", inp,
+                  {"plane": list(cap["plane"].shape), "crop_to": list(cap["crop_to"])},
+                  m if isinstance(m, str) else {"plane": m["plane_shape"], "crop_to": [shape[oa], shape[ta]]})
+        ctx.agree("step_wedge: centered crop, clip to the largest weight, moveaxis / reshape / tile (stepVolume)", inp,
+                  {"shape": list(vol.shape), "equal": True}, m if isinstance(m, str) else arr_eq(m["volume"], vol))
+        ctx.spec("the rotated plane has an odd tilt extent and the extent of the opening axis", inp,
+                 cap["plane"].shape == (shape[oa], shape[ta] + (1 - shape[ta] % 2)), key="WedgeReconstructed.step_wedge:plane")
+        okc = vol.shape == tuple(shape)
+        for r in range(nd):
+            if okc and r not in (oa, ta):
+                okc = bool(np.all(vol == np.take(vol, [0], axis=r)))
+        ctx.spec("per-tilt wedge volume is constant along the axes that are neither opening nor tilt axis", inp, okc,
+                 key="WedgeReconstructed.step_wedge:tiling")
+    mt = ctx.driver.call("c12.wedgetail", vol=arr_in(vol), cutoff=fr(fc), weight_wedge=ww, rrf=rrf)
+    ctx.agree("WedgeReconstructed.__call__ tail: cut-off, threshold, shift, crop (wedgeTail)", inp, {"shape": list(out.shape), "equal": True},
+              arr_eq(mt, out))
+    # clauses on the real arrays
+    full = out if not rrf else np.asarray(WedgeReconstructed(**ctor)(shape=shape, return_real_fourier=False)["data"])
+    rest = [r for r in range(nd) if r not in (oa, ta)]
+    if rest and full.shape == tuple(shape):
+        bad = asym_positions(ctx, full, 0.0, axes=rest)
+        ctx.spec("wedge symmetric under frequency negation on the axes other than opening / tilt axis", inp, len(bad) == 0,
+                 {"asymmetric": bad[:5].tolist()}, key="WedgeReconstructed:symmetry-off-axes")
+    if continuous and full.shape == tuple(shape):
+        ctx.spec("continuous wedge keeps the zero frequency", inp, float(full.flat[0]) == 1.0, {"dc": float(full.flat[0])},
+                 key="WedgeReconstructed.continuous_wedge:dc")
+    if not continuous and full.shape == tuple(shape):
+        centre = float(vol[tuple(x // 2 for x in shape)])
+        ctx.spec("per-tilt wedge keeps the zero frequency (unweighted: 1; weighted: the positive centre value of the volume)", inp,
+                 centre > 0 and (float(full.flat[0]) == (np.float32(centre) if ww else 1.0)), {"dc": float(full.flat[0]), "centre": centre},
+                 key="WedgeReconstructed.step_wedge:dc")
+    ctx.count(f"deep:wedge:{kind}:axes={oa}{ta}:{parity(shape)}")
+    ctx.count(f"deep:wedge:{kind}:" + ("weighted" if ww else "binary") + ":cutoff=" + str(fc))
+    if any(a in (0.0, 90.0, -90.0) for a in angles):
+        ctx.count(f"deep:wedge:{kind}:has-0-or-90-degrees")
+    ctx.distinct(("deep-wedge", kind, shape, oa, ta, angles, weights, ww, fc, rrf))
+    return inp
+
+
+def deep_tilt(ctx, seed):
+    from tme.preprocessing.tilt_series import Wedge
+    g = np.random.default_rng(seed)
+    nd = 3            # a tilt series of 2-D images; (the rotation of frequency_grid_at_angle is not defined for 1-D tilts)
+    shape = rand_shape(g, lo=3, hi=9, nd=nd)
+    oa, ta = (int(x) for x in g.permutation(nd)[:2])
+    n = int(g.integers(1, 6))
+    angles = np.sort(g.uniform(-60, 60, size=n)).round(1)
+    for _ in range(int(g.integers(0, 3))):
+        angles[int(g.integers(0, n))] = 0.0
+    weights = g.uniform(0.5, 3, size=n).round(2)
+    fc = [0.5, None, 0.3, 0.8][int(g.integers(0, 4))]
+    ctor = dict(shape=None, tilt_axis=ta, opening_axis=oa, angles=angles, weights=weights, frequency_cutoff=fc)
+    for wt in (None, "angle", "relion", "grigorieff", str(g.choice(["Angle", "cosine", "", "none"]))):
+        inp = {"kind": "deep-tilt", "seed": seed, "shape": shape, "opening_axis": oa, "tilt_axis": ta, "angles": angles.tolist(),
+               "weights": weights.tolist(), "frequency_cutoff": fc, "weight_type": wt}
+        pl = ctx.driver.call("c12.wedgeplan", shape=list(shape), weight_type=wt, opening=oa, n=n)
+        sink = []
+        try:
+            with record(Wedge, ("weight_angle", "weight_relion", "weight_grigorieff"), sink):
+                out = np.asarray(Wedge(**ctor)(shape=shape, weight_type=wt)["data"])
+            impl = {"func": sink[0][0] if sink else None, "stack": list(out.shape)}
+        except (ValueError, TypeError) as e:
+            # an unknown weight_type is rejected; today the intended ValueError is pre-empted by a TypeError raised while
+            # its message is formatted (','.join over keys that include None) - rejected either way
+            ctx.count("deep:tilt:rejected-with-" + type(e).__name__)
+            out, impl = None, {"func": None, "stack": None}
+        ctx.agree("Wedge.__call__: weighting chosen by weight_type (ValueError otherwise), shape of the stack (wedgeWeightFunc, wedgeStackShape)", inp,
+                  impl, {"func": pl["func"], "stack": pl["stack"] if pl["func"] is not None else None})
+        ctx.count("deep:tilt:" + str(wt if pl["func"] is not None else "invalid"))
+        if out is None:
+            continue
+        ctx.distinct(("deep-tilt", shape, oa, ta, n, wt, fc))
+        # tilted images: frequency_grid_at_angle rotates the centred grid with the single-precision matrix of
+        # euler_to_rotationmatrix (handed to the model as it is, like the tan() limits of the continuous wedge)
+        from tme.matching_utils import euler_to_rotationmatrix
+        reqs, which = [], []
+        for i, a in enumerate(angles):
+            if a == 0:
+                continue
+            av = np.zeros(3)
+            av[ta] = a
+            R = euler_to_rotationmatrix(np.roll(av, oa - 1))
+            base = dict(shape=list(shape), opening=oa, matrix=[[fr(x) for x in row] for row in R], cutoff=fr(fc))
+            if pl["func"] == "weight_angle":
+                w_i = float(np.cos(np.radians(angles))[i]) if pl["replaced"] else float(weights[i])
+                reqs.append(("c12.tilted", dict(base, kind="const", w=fr(w_i))))
+            elif pl["func"] == "weight_relion":
+                sigma = np.sqrt(weights[i] * 4 / (8 * np.pi ** 2))
+                sigma = -2 * np.pi ** 2 * sigma ** 2
+                reqs.append(("c12.tilted", dict(base, kind="relion", sigma=fr(sigma), cos=fr(np.cos(np.radians(a))))))
+            else:
+                reqs.append(("c12.tilted", dict(base, kind="grigorieff", w=fr(weights[i]), amplitude=fr(0.245), power=fr(-1.665), offset=fr(2.81))))
+            which.append(i)
+        for i, m in zip(which, ctx.driver.batch(reqs)):
+            ctx.agree("Wedge " + pl["func"] + " plane of a tilted image (tiltedPlane)", {**inp, "tilt": i},
+                      {"shape": list(out[i].shape), "equal": True}, arr_eq(m, out[i], 2e-6))
+            p_dc = np.fft.ifftshift(out[i]).astype(np.float64)
+            d = np.abs(negated(ctx, p_dc) - p_dc)
+            for ax, n_ax in enumerate(p_dc.shape):          # leave out the Nyquist terms of even extents
+                if n_ax % 2 == 0:
+                    sl = [slice(None)] * p_dc.ndim
+                    sl[ax] = n_ax // 2
+                    d[tuple(sl)] = 0
+            ctx.spec("plane of a tilted image is symmetric under frequency negation off the Nyquist terms (read DC first)", {**inp, "tilt": i},
+                     bool(np.all(d <= 1e-7)), {"max": float(d.max())}, key="Wedge:tilted-plane-symmetry")
+            ctx.count("deep:tilt:tilted-plane:" + pl["func"])
+        if pl["func"] in ("weight_relion", "weight_grigorieff"):
+            # untilted images: the weighting is a function of the plain radial grid (exp / power: compared at float32 accuracy)
+            reqs, which = [], []
+            for i, a in enumerate(angles):
+                if a != 0:
+                    continue
+                if pl["func"] == "weight_relion":
+                    sigma = np.sqrt(weights[i] * 4 / (8 * np.pi ** 2))
+                    sigma = -2 * np.pi ** 2 * sigma ** 2
+                    reqs.append(("c12.tiltfn", dict(shape=pl["stack"][1:], kind="relion", sigma=fr(sigma), cos=fr(np.cos(np.radians(a))),
+                                                    cutoff=fr(fc))))
+                else:
+                    reqs.append(("c12.tiltfn", dict(shape=pl["stack"][1:], kind="grigorieff", w=fr(weights[i]), amplitude=fr(0.245),
+                                                    power=fr(-1.665), offset=fr(2.81), cutoff=fr(fc))))
+                which.append(i)
+            for i, m in zip(which, ctx.driver.batch(reqs)):
+                ctx.agree("Wedge " + pl["func"] + " plane of an untilted image (tiltPlaneFn, relionVal / grigorieffVal)", {**inp, "tilt": i},
+                          {"shape": list(out[i].shape), "equal": True}, arr_eq(m, out[i], 2e-6))
+                bad = asym_positions(ctx, np.fft.ifftshift(out[i]).astype(np.float64), 0.0)
+                ctx.spec("plane of an untilted image is symmetric under frequency negation (read DC first)", {**inp, "tilt": i}, len(bad) == 0,
+                         {"asymmetric": bad[:5].tolist()}, key="Wedge:untilted-plane-symmetry")
+            continue
+        if sink:
+            ctx.agree("weights handed to weight_angle: the cosines of the tilt angles for weight_type='angle', the given ones otherwise", inp,
+                      [float(x) for x in np.asarray(sink[0][1]["weights"], dtype=np.float64)],
+                      [float(x) for x in (np.cos(np.radians(angles)) if pl["replaced"] else weights)])
+        w = np.cos(np.radians(angles)) if pl["replaced"] else weights
+        reqs, which = [], []
+        for i, a in enumerate(angles):
+            if a == 0 or fc is None:
+                reqs.append(("c12.tiltplane", dict(shape=pl["stack"][1:], w=fr(w[i]), cutoff=fr(fc))))
+                which.append(i)
+        for i, m in zip(which, ctx.driver.batch(reqs)):
+            md = unfl(m["data"], m["shape"]).astype(out.dtype) if not isinstance(m, str) else None
+            ctx.agree("Wedge weight_angle plane of an untilted image / without cut-off (tiltPlaneZero)", {**inp, "tilt": i},
+                      {"shape": list(out[i].shape), "equal": True},
+                      m if md is None else {"shape": m["shape"], "equal": bool(md.shape == out[i].shape and np.array_equal(md, out[i]))})
+            p = np.fft.ifftshift(out[i])
+            bad = asym_positions(ctx, p.astype(np.float64), 0.0)
+            ctx.spec("plane of an untilted image is symmetric under frequency negation (read DC first)", {**inp, "tilt": i}, len(bad) == 0,
+                     {"asymmetric": bad[:5].tolist()}, key="Wedge:untilted-plane-symmetry")
+
+
+def _ctf_formula(c, r, defocus_x, phase_shift, sampling_rate, flip):
+    """the operations of CTF.weight after the frequency grid, on a given radial grid `r` (no astigmatism, no gradient)"""
+    sr = np.max(sampling_rate)
+    fg = np.array(r, dtype=np.float64, copy=True)
+    mask = fg < 0.5
+    np.square(fg, out=fg)
+    sa = c.spherical_aberration / sr
+    lam = c._compute_electron_wavelength() / sr
+    chi = defocus_x / sr - 0.5 * (sa * lam ** 2) * fg
+    np.multiply(chi, np.pi * lam, out=chi)
+    np.multiply(chi, fg, out=chi)
+    chi += phase_shift
+    chi += np.arctan(np.divide(c.amplitude_contrast, np.sqrt(1 - np.square(c.amplitude_contrast))))
+    np.sin(-chi, out=chi)
+    np.multiply(chi, mask, out=chi)
+    st = -chi
+    return np.abs(st) if flip else st
+
+
+def deep_ctf(ctx, seed):
+    from tme.preprocessing.tilt_series import CTF
+    g = np.random.default_rng(seed)
+    mode = ["single", "single", "mismatch", "stack"][int(g.integers(0, 4))]
+    nd = 3 if mode == "stack" else int(g.integers(2, 4))
+    shape = rand_shape(g, lo=3, hi=10, nd=nd)
+    rrf, flip = bool(g.random() < 0.5), bool(g.random() < 0.5)
+    sr = float(np.round(g.uniform(1, 6), 2))
+    dx, ps = float(np.round(g.uniform(500, 30000), 1)), float(g.choice([0.0, 0.3, 1.2]))
+    inp = {"kind": "deep-ctf", "seed": seed, "mode": mode, "shape": shape, "return_real_fourier": rrf, "flip_phase": flip, "sampling_rate": sr,
+           "defocus_x": dx, "phase_shift": ps}
+    if mode == "stack":
+        n = int(g.integers(2, 5))
+        oa, ta = (int(x) for x in g.permutation(3)[:2])
+        c = CTF(shape=None, defocus_x=[dx + 100.0 * i for i in range(n)], angles=[float(x) for x in np.sort(g.uniform(-60, 60, size=n)).round(1)],
+                opening_axis=oa, tilt_axis=ta, sampling_rate=sr, phase_shift=[ps] * n, defocus_y=np.array([None] * n, dtype=object),
+                flip_phase=flip, return_real_fourier=rrf)
+        r = c(shape=shape)
+        pl = ctx.driver.call("c12.ctfplan", shape=list(shape), opening=oa, n_angles=n, n_self=n, n_defocus=n, rrf=rrf)
+        ctx.agree("CTF tilt stack: shape of the result and axes reported (ctfPlan)", inp,
+                  {"shape": list(np.asarray(r["data"]).shape), "opening": r["opening_axis"]}, {"shape": pl["shape"], "opening": pl["opening"]})
+        from tme.matching_utils import euler_to_rotationmatrix
+        outs = np.asarray(r["data"])
+        reqs, which = [], []
+        for i, a in enumerate(c.angles):
+            if a == 0:
+                continue
+            av = np.zeros(3)
+            av[ta] = a
+            R = euler_to_rotationmatrix(np.roll(av, oa - 1))
+            reqs.append(("c12.tilted", dict(shape=list(shape), opening=oa, matrix=[[fr(x) for x in row] for row in R], cutoff=None, kind="grid")))
+            which.append(i)
+        for i, m in zip(which, ctx.driver.batch(reqs)):
+            if isinstance(m, str):
+                ctx.agree("CTF tilt stack: frequency grid of a tilted image", {**inp, "tilt": i}, "array", m)
+                continue
+            ref = _ctf_formula(c, unfl(m["data"], m["shape"]), c.defocus_x[i], ps, sr, flip)
+            ctx.agree("CTF tilt stack: plane = the transfer function on the model's rotated frequency grid, centred (tiltedPlane)", {**inp, "tilt": i},
+                      {"shape": list(outs[i].shape), "equal": True},
+                      {"shape": m["shape"], "equal": bool(ref.shape == outs[i].shape and np.all(np.abs(ref.astype(outs.dtype) - outs[i]) <= 1e-6))})
+        ctx.count("deep:ctf:stack")
+        ctx.distinct(("deep-ctf", mode, shape, oa, ta, n))
+        return inp
+    c = CTF(shape=None, defocus_x=[dx], angles=[0], sampling_rate=sr, phase_shift=[ps], flip_phase=flip, return_real_fourier=rrf)
+    kw = dict(shape=shape)
+    n_call = 1
+    if mode == "mismatch":
+        n_call = int(g.integers(2, 4))
+        kw.update(angles=[10.0 * i for i in range(n_call)], opening_axis=0, tilt_axis=nd - 1)
+    r = c(**kw)
+    out = np.asarray(r["data"])
+    pl = ctx.driver.call("c12.ctfplan", shape=list(shape), opening=kw.get("opening_axis"), n_angles=n_call, n_self=1, n_defocus=1, rrf=rrf)
+    ctx.agree("CTF: shape of the result, half spectrum only when honoured, axes reported (ctfPlan)", inp,
+              {"shape": list(out.shape), "opening": r["opening_axis"]}, {"shape": pl["shape"], "opening": pl["opening"]})
+    m = ctx.driver.call("c12.radialone", shape=list(shape), rrf=bool(pl["cropped"]))
+    if isinstance(m, str):
+        ctx.agree("CTF frequency grid", inp, "array", m)
+        return inp
+    grid = unfl(m["data"], m["shape"])
+    ref = _ctf_formula(c, grid, dx, ps, sr, flip)
+    ctx.agree("non-astigmatic CTF of one image = the transfer function evaluated on the model's frequency grid, DC first (radialMaskOne)", inp,
+              {"shape": list(out.shape), "equal": True},
+              {"shape": m["shape"], "equal": bool(ref.shape == out.shape and np.all(np.abs(ref.astype(out.dtype) - out) <= 1e-6))})
+    full = out if not pl["cropped"] else np.asarray(CTF(shape=None, defocus_x=[dx], angles=[0], sampling_rate=sr, phase_shift=[ps],
+                                                        flip_phase=flip, return_real_fourier=False)(shape=shape)["data"])
+    okf = full.shape == tuple(shape)
+    bad = []
+    for ax in range(nd):
+        if okf:
+            bad.extend(asym_positions(ctx, full, 1e-6, axes=[ax])[:3].tolist())
+    ctx.spec("non-astigmatic CTF is even in every frequency component (a function of |k|^2)", inp, okf and not bad, {"asymmetric": bad[:5]},
+             key="CTF:symmetry")
+    if flip:
+        ctx.spec("flip_phase: no negative values", inp, float(out.min()) >= 0.0, {"min": float(out.min())}, key="CTF:flip-phase")
+    ctx.count("deep:ctf:" + mode + ":" + ("half" if pl["cropped"] else "full") + ":" + parity(shape)[-1])
+    ctx.distinct(("deep-ctf", mode, shape, rrf, flip, sr, dx, ps))
+    return inp
+
+
+def deep_pp(ctx, seed):
+    """legacy tme.preprocessor.Preprocessor mask constructors: which filter arguments they translate to"""
+    from tme.preprocessor import Preprocessor
+    from tme.preprocessing.frequency_filters import BandPassFilter
+    from tme.preprocessing.tilt_series import WedgeReconstructed
+    g = np.random.default_rng(seed)
+    shape = rand_shape(g, lo=3, hi=9, nd=3)
+    sigma = float(g.choice([0.0, 0.0, 1.0, 2.5]))
+    omit, inf, has_w = bool(g.random() < 0.5), bool(g.random() < 0.5), bool(g.random() < 0.5)
+    oa, ta = (int(x) for x in g.permutation(3)[:2])
+    n = int(g.integers(1, 5))
+    angles = tuple(float(x) for x in np.sort(g.uniform(-60, 60, size=n)).round(0))
+    weights = tuple(float(x) for x in g.uniform(0.5, 2, size=n).round(1)) if has_w else None
+    inp = {"kind": "deep-pp", "seed": seed, "shape": shape, "gaussian_sigma": sigma, "omit_negative_frequencies": omit, "infinite_plane": inf,
+           "weights": weights, "tilt_angles": angles, "opening_axis": oa, "tilt_axis": ta}
+    m = ctx.driver.call("c12.pp", sigma_is_zero=sigma == 0.0, omit_negative=omit, infinite_plane=inf, has_weights=has_w)
+    pp = Preprocessor()
+    sink = []
+    with record(BandPassFilter, ("discrete_bandpass", "gaussian_bandpass"), sink):
+        a = np.asarray(pp.bandpass_mask(shape=shape, lowpass=float(g.uniform(2, 8)), highpass=float(g.uniform(10, 40)), sampling_rate=1,
+                                        gaussian_sigma=sigma, omit_negative_frequencies=omit))
+    ctx.agree("Preprocessor.bandpass_mask: edge kind and half spectrum (ppBandpass)", inp,
+              {"gaussian": sink[0][0] == "gaussian_bandpass", "rrf": bool(sink[0][1]["return_real_fourier"])},
+              {"gaussian": m["use_gaussian"], "rrf": m["bp_rrf"]})
+    ctx.spec("shape: full or half spectrum as asked", inp, a.shape == (half_shape(shape) if omit else tuple(shape)), key="Preprocessor.bandpass_mask:shape")
+    for name in ("step", "continuous"):
+        sink = []
+        with record(WedgeReconstructed, ("step_wedge", "continuous_wedge"), sink):
+            if name == "step":
+                a = pp.step_wedge_mask(shape=shape, tilt_angles=angles, opening_axis=oa, tilt_axis=ta, weights=weights, infinite_plane=inf,
+                                       omit_negative_frequencies=omit)
+            else:
+                a = pp.continuous_wedge_mask(start_tilt=float(g.integers(20, 70)), stop_tilt=float(g.integers(20, 70)), shape=shape,
+                                             opening_axis=oa, tilt_axis=ta, infinite_plane=inf, omit_negative_frequencies=omit)
+        a = np.asarray(a)
+        k = sink[0][1]
+        ctx.agree(f"Preprocessor.{name}_wedge_mask: wedge kind, cut-off, weighting, half spectrum (ppWedge)", inp,
+                  {"func": sink[0][0], "cutoff": k["frequency_cutoff"] is not None, "ww": bool(k["weight_wedge"]), "rrf": bool(k["return_real_fourier"])},
+                  {"func": name + "_wedge", "cutoff": m["cutoff"], "ww": m["weight_wedge"] if name == "step" else False, "rrf": m["wedge_rrf"]})
+        ctx.spec("shape: full or half spectrum as asked", inp, a.shape == (half_shape(shape) if omit else tuple(shape)),
+                 key=f"Preprocessor.{name}_wedge_mask:shape")
+    ctx.count("deep:pp")
+    ctx.distinct(("deep-pp", shape, sigma, omit, inf, has_w, oa, ta))
+    return inp
+
+
+def deep_meta(ctx, seed):
+    """what each filter class hands back to Compose (keys besides `data`, the multiplicative flag) and whether it reads
+    `shape_is_real_fourier`"""
+    import re
+    from tme.preprocessing.frequency_filters import BandPassFilter, LinearWhiteningFilter
+    from tme.preprocessing.tilt_series import WedgeReconstructed, Wedge, CTF, ReconstructFromTilt
+    g = np.random.default_rng(seed)
+    shape = rand_shape(g, lo=4, hi=9, nd=3)
+    rrf = bool(g.random() < 0.5)
+    oa, ta = (int(x) for x in g.permutation(3)[:2])
+    rf = np.fft.rfftn(g.normal(size=shape))
+    vol = g.normal(size=shape)
+    calls = {
+        "BandPassFilter": (BandPassFilter, lambda: BandPassFilter(lowpass=float(g.uniform(2, 8)), use_gaussian=bool(g.random() < 0.5))(
+            shape=shape, return_real_fourier=rrf)),
+        "LinearWhiteningFilter": (LinearWhiteningFilter, lambda: LinearWhiteningFilter()(data_rfft=rf, shape=shape, return_real_fourier=rrf)),
+        "WedgeReconstructed": (WedgeReconstructed, lambda: WedgeReconstructed(angles=(40.0, 50.0), opening_axis=oa, tilt_axis=ta,
+                                                                             create_continuous_wedge=bool(g.random() < 0.5))(
+            shape=shape, **({"return_real_fourier": rrf} if g.random() < 0.7 else {}))),
+        "Wedge": (Wedge, lambda: Wedge(shape=None, tilt_axis=ta, opening_axis=oa, angles=np.array([0.0, 20.0]), weights=np.array([1.0, 0.5]))(
+            shape=shape, weight_type=[None, "angle", "relion", "grigorieff"][int(g.integers(0, 4))])),
+        "CTF": (CTF, lambda: CTF(shape=None, defocus_x=[3000.0], angles=[0], return_real_fourier=rrf, phase_shift=[0])(shape=shape)),
+        "ReconstructFromTilt": (ReconstructFromTilt, lambda: ReconstructFromTilt(shape=shape, angles=(0.0,), opening_axis=oa, tilt_axis=ta)(
+            data=vol, return_real_fourier=rrf)),          # data already has the requested shape: returned as it is
+    }
+    for name, (cls, f) in calls.items():
+        inp = {"kind": "deep-meta", "seed": seed, "class": name, "shape": shape}
+        r = f()
+        m = ctx.driver.call("c12.meta", cls=name)
+        ctx.agree("keys a filter hands back to Compose besides data, is_multiplicative_filter (emits, multFlag)", inp,
+                  {"keys": sorted(k for k in r if k != "data"), "mult": bool(r.get("is_multiplicative_filter", False))},
+                  {"keys": sorted(m["emits"]), "mult": m["mult"]})
+        src = inspect.getsource(cls)
+        reads = bool(re.search(r'get\(\s*"shape_is_real_fourier"', src) or re.search(r'[^"\w]shape_is_real_fourier\s*:', src))
+        ctx.agree("class reads shape_is_real_fourier (readsSirf)", inp, reads, m["reads_sirf"])
+        ctx.spec("a filter never hands return_real_fourier / data_rfft / batch_dimension on to later filters", inp,
+                 not ({"return_real_fourier", "data_rfft", "batch_dimension"} & set(r)), sorted(r), key="Compose:forwarded-call-arguments")
+        if name == "WedgeReconstructed":
+            ctx.spec("the wedge reports the shape of the mask it returned and whether that is a half-spectrum shape", inp,
+                     tuple(r["shape"]) == tuple(np.asarray(r["data"]).shape) and
+                     bool(r["shape_is_real_fourier"]) == (tuple(r["shape"]) != tuple(shape)), key="WedgeReconstructed:reported-shape")
+        ctx.count("deep:meta:" + name)
+    ctx.distinct(("deep-meta", shape, rrf, oa, ta))
+    return {"kind": "deep-meta", "seed": seed}
+
+
+def _rec_val(kind, f):
+    if kind == "ram-lak":
+        return f
+    if kind == "shepp-logan":
+        return f * np.sinc(f / 2)
+    if kind == "cosine":
+        return f * np.cos(f * np.pi / 2)
+    return f * (0.54 + 0.46 * np.cos(f * np.pi))
+
+
+def deep_recfilter(ctx, seed):
+    """reconstruction filter of the per-tilt wedge: name dispatch, shape handed over by step_wedge, values on the model's grid"""
+    from tme.preprocessing import tilt_series as ts
+    from tme.preprocessing.tilt_series import WedgeReconstructed
+    g = np.random.default_rng(seed)
+    shape = rand_shape(g, lo=3, hi=10)
+    nd = len(shape)
+    oa, ta = (int(x) for x in g.permutation(nd)[:2])
+    n = int(g.integers(2, 6))
+    angles = tuple(float(x) for x in np.sort(g.choice(np.arange(-70, 71, 2.5), size=n, replace=False)))
+    name = str(g.choice(["ram-lak", "ramp", "shepp-logan", "cosine", "hamming"]))
+    r = g.random()
+    name = name.upper() if r < 0.15 else name.title() if r < 0.3 else str(g.choice(["hann", "", "ramlak", "None"])) if r < 0.4 else name
+    inp = {"kind": "deep-recfilter", "seed": seed, "shape": shape, "opening_axis": oa, "tilt_axis": ta, "angles": angles, "reconstruction_filter": name}
+    cap = {}
+    orig = ts.create_reconstruction_filter
+
+    def rec(filter_shape, filter_type, **kw):
+        out = orig(filter_shape, filter_type, **kw)
+        cap["shape"], cap["ret"] = tuple(int(x) for x in filter_shape), np.array(out, copy=True)
+        return out
+    ts.create_reconstruction_filter = rec
+    try:
+        try:
+            WedgeReconstructed.step_wedge(shape=shape, angles=angles, opening_axis=oa, tilt_axis=ta, reconstruction_filter=name)
+            raised = None
+        except ValueError as e:
+            raised = "Unsupported" if "Unsupported filter type" in str(e) else "ValueError:" + str(e)[:60]
+    finally:
+        ts.create_reconstruction_filter = orig
+    ps = [shape[oa], shape[ta] + (1 - shape[ta] % 2)]
+    scale = float(np.radians(np.min(np.abs(np.diff(np.sort(angles))))) * ps[1])
+    m = ctx.driver.call("c12.recfilter", plane_shape=ps, filter_type=name, scale=fr(scale))
+    ctx.agree("create_reconstruction_filter: accepted names (any letter case), shape requested by step_wedge (recFilterKind, planeShape reversed)", inp,
+              {"accepted": raised is None, "shape": list(cap["shape"]) if raised is None else None, "error": raised},
+              {"accepted": m["kind"] is not None, "shape": ps[::-1] if m["kind"] is not None else None, "error": None if m["kind"] is not None else "Unsupported"})
+    ctx.count("deep:recfilter:" + (m["kind"] or "rejected"))
+    if raised is not None or m["kind"] is None or m["array"] is None:
+        return inp
+    grid = unfl(m["array"]["data"], m["array"]["shape"])
+    ref = grid if m["kind"] == "ramp" else _rec_val(m["kind"], grid)
+    tol = 0.0 if m["kind"] in ("ramp", "ram-lak") else 1e-12
+    ctx.agree("reconstruction filter = its profile on the model's frequency grid, transposed (recFilterRadial / recFilterRamp)", inp,
+              {"shape": list(cap["ret"].shape), "equal": True},
+              {"shape": list(ref.T.shape), "equal": bool(ref.T.shape == cap["ret"].shape and np.all(np.abs(ref.T - cap["ret"]) <= tol))})
+    ret = cap["ret"]
+    centre = tuple(x // 2 for x in ret.shape)
+    ctx.spec("reconstruction filter vanishes at the zero frequency, is real and finite", inp,
+             ret.dtype.kind == "f" and bool(np.all(np.isfinite(ret))) and float(ret[centre]) == 0.0, {"centre": float(ret[centre])},
+             key="create_reconstruction_filter:dc")
+    if m["kind"] == "ramp":
+        ctx.spec("ramp filter: within [0, 1], constant along the opening axis", inp,
+                 float(ret.min()) >= 0 and float(ret.max()) <= 1 and bool(np.all(ret == ret[:, :1])), key="create_reconstruction_filter:ramp")
+    else:
+        bad = asym_positions(ctx, np.fft.ifftshift(ret), 1e-12)
+        ctx.spec("radial reconstruction filter symmetric under frequency negation (read DC first)", inp, len(bad) == 0,
+                 {"asymmetric": bad[:5].tolist()}, key="create_reconstruction_filter:symmetry")
+    ctx.distinct(("deep-recfilter", shape, oa, ta, angles, name))
+    return inp
+
+
+def deep_tiltcall(ctx, seed):
+    """Wedge.__call__ with the tilt angles overridden at call time: which angles are used where (today's behaviour)"""
+    from tme.preprocessing.tilt_series import Wedge
+    g = np.random.default_rng(seed)
+    shape = rand_shape(g, lo=5, hi=8, nd=3)
+    oa, ta = (int(x) for x in g.permutation(3)[:2])
+    n_self = int(g.integers(1, 5))
+    n_call = None if g.random() < 0.3 else int(g.integers(1, 5))
+    wt = [None, "angle", "relion", "grigorieff"][int(g.integers(0, 4))]
+    fc = None if g.random() < 0.4 else 0.3
+    a_self = np.sort(g.uniform(-50, 50, size=n_self)).round(1)
+    w_self = g.uniform(0.5, 2.0, size=n_self).round(2)
+    kw = dict(shape=shape, weight_type=wt)
+    if n_call is not None:
+        kw["angles"] = np.sort(g.uniform(-50, 50, size=n_call)).round(1)
+    inp = {"kind": "deep-tiltcall", "seed": seed, "shape": shape, "opening_axis": oa, "tilt_axis": ta, "n_self": n_self, "n_call": n_call,
+           "weight_type": wt, "frequency_cutoff": fc}
+
+    def run(cut):
+        return Wedge(shape=None, tilt_axis=ta, opening_axis=oa, angles=a_self.copy(), weights=w_self.copy(), frequency_cutoff=cut)(**kw)
+    func = ctx.driver.call("c12.wedgeplan", shape=list(shape), weight_type=wt, opening=oa, n=n_self)["func"]
+    m = ctx.driver.call("c12.wedgecall", func=func, n_self=n_self, n_call=n_self if n_call is None else n_call, cutoff=fc is not None)
+    try:
+        r = run(fc)
+        out = np.asarray(r["data"])
+        impl = {"raises": False, "planes": int(out.shape[0]), "reported": len(r["angles"])}
+        if fc is not None:
+            plain_ = np.asarray(run(None)["data"])
+            impl["cut"] = [bool(not np.array_equal(out[i], plain_[i])) for i in range(out.shape[0])]
+        else:
+            impl["cut"] = [False] * out.shape[0]
+    except IndexError:
+        impl = {"raises": True}
+    model = {"raises": True} if m["raises"] else {"raises": False, "planes": m["planes"], "reported": m["reported"], "cut": m["cut"]}
+    ctx.agree("Wedge.__call__: planes, reported angles, planes cut off, IndexError when the call overrides the angles (wedgeCallPlan)", inp, impl, model)
+    if n_call is None or n_call == n_self:
+        ctx.spec("tilt stack: one plane per tilt angle, reported angles describe the stack", inp,
+                 impl == {"raises": False, "planes": n_self, "reported": n_self, "cut": [fc is not None] * n_self}, impl, key="Wedge:stack-consistent")
+    ctx.count("deep:tiltcall:" + str(wt) + ":" + ("no-override" if n_call is None else "same" if n_call == n_self else "fewer" if n_call < n_self else "more"))
+    ctx.distinct(("deep-tiltcall", shape, oa, ta, n_self, n_call, wt, fc))
+    return inp
+
+
+DEEP = {"deep-bins": deep_bins, "deep-wedge": deep_wedge, "deep-tilt": deep_tilt, "deep-ctf": deep_ctf, "deep-pp": deep_pp, "deep-meta": deep_meta, "deep-recfilter": deep_recfilter, "deep-tiltcall": deep_tiltcall}
+
+
+def deep_suite(ctx, rng, scale=1.0):
+    for kind, quick, thorough in (("deep-bins", 300, 3000), ("deep-wedge", 300, 3000), ("deep-tilt", 80, 800), ("deep-ctf", 150, 1500),
+                                  ("deep-pp", 30, 300), ("deep-meta", 15, 150), ("deep-recfilter", 150, 1500), ("deep-tiltcall", 60, 600)):
+        for _ in range(int(ctx.budget(quick, thorough) * scale)):
+            _guard(ctx, kind, DEEP[kind], int(rng.integers(0, 2 ** 31 - 1)))
+
+
 # ----------------------------------------------------------------------------- suites
 def _guard(ctx, kind, fn, *a, **k):
     """a filter that raises on a generated (valid) input is a failing input of the property, not a harness error"""
@@ -950,6 +1578,7 @@ def _suite(ctx, rng, scale, wide=False):
         _guard(ctx, "compose", check_compose, rng, wide=wide)
     for _ in range(int(ctx.budget(200, 1500) * scale)):
         _guard(ctx, "composeloop", check_compose_loop_model, rng)
+    deep_suite(ctx, rng, scale)
 
 
 def run(ctx):
@@ -1004,6 +1633,8 @@ def replay(ctx, rec):
     if str(kind).startswith("wide-"):
         from .. import c12_wide
         c12_wide.replay(ctx, inp)
+    elif kind in DEEP:
+        DEEP[kind](ctx, int(inp["seed"]))
     elif kind == "bandpass":
         from tme.preprocessing.frequency_filters import BandPassFilter
         ctor = _unjson(inp["ctor"])
